@@ -314,6 +314,13 @@ pub fn alphabet(sc: &Scope, asks: &[(String, AskOrderV1)], bids: &[(String, BidO
     v.push(ex(sc.exec, vec![], modify(None, None, cur_ask.as_deref().or(Some("0.05")), Some(""), None, None, None, None)));
     v.push(ex(sc.exec, vec![], modify(None, None, None, None, cur_bid.as_deref().or(Some("0.1")), Some(""), None, None)));
     let shorter = |r: &Option<String>| r.as_ref().and_then(|x| D::parse(x)).and_then(|d| if d.s == 0 { None } else { Some(D { m: (d.m + 5) / 10, s: d.s - 1 }.render()) });
+    let finer = |r: &Option<String>| r.as_ref().and_then(|x| D::parse(x)).map(|d| D { m: d.m * 10 + 4, s: d.s + 1 }.render());
+    if let Some(x) = finer(&cur_ask) {
+        v.push(ex(sc.exec, vec![], modify(None, None, Some(&x), Some("askfee1"), None, None, None, None)));
+    }
+    if let Some(x) = finer(&cur_bid) {
+        v.push(ex(sc.exec, vec![], modify(None, None, None, None, Some(&x), Some("bidfee1"), None, None)));
+    }
     if let Some(x) = shorter(&cur_ask) {
         v.push(ex(sc.exec, vec![], modify(None, None, Some(&x), Some("askfee1"), None, None, None, None)));
     }
